@@ -51,7 +51,7 @@ pub struct ProcFacts {
     /// (t, ovh, result, n_out, n_err, seq)
     pub comm_end: Option<(u64, u64, String, Option<u64>, Option<u64>, u64)>,
     pub wait: Option<(u64, String)>,
-    pub killed: Option<(u64, u8)>,
+    pub killed: Option<(u64, u8, u64)>,
     pub parent_close: Option<(u64, u64)>,
     pub faults: Vec<String>,
     pub touches: Vec<(u64, String)>,
@@ -290,7 +290,7 @@ pub fn extract(sc: &Scenario, log: &[LogEntry]) -> Facts {
             }
             LogEv::Kill { pid, sig } => {
                 ensure(&mut f, *pid);
-                f.procs[*pid as usize].killed = Some((e.t, *sig));
+                f.procs[*pid as usize].killed = Some((e.t, *sig, e.seq));
             }
             LogEv::ParentClose { pid } => {
                 ensure(&mut f, *pid);
